@@ -617,6 +617,15 @@ def run(chk):
         if "x" in c:
             oracle_cases.insert(0, (c["pair"], c["source"], c["x"], tuple(c["tol"])))
     mixed_cases = gen_mixed_cases(chk.rng, 150 if quick else 2000)
+    # the documented wrappers of unit_list (units::mixed)
+    WRAPPERS = [("DMS", ["degree", "arcminute", "arcsecond"], "degree"), ("DM", ["degree", "arcminute"], "degree"),
+                ("feet_and_inches", ["foot", "inch"], "foot"), ("pounds_and_ounces", ["pound", "ounce"], "pound")]
+    wrapper_cases = []
+    for _ in range(40 if quick else 600):
+        fn, us, vu = chk.rng.choice(WRAPPERS)
+        v = chk.rng.choice([chk.rng.uniform(0, 400), float(chk.rng.randrange(0, 400)), chk.rng.randrange(1, 10 ** 5) / 3600.0,
+                            -chk.rng.uniform(0, 90), chk.rng.randrange(1, 1000) / 12.0])
+        wrapper_cases.append((fn, us, v, vu))
     dt_cases = gen_datetime_oracle_cases(chk.rng, 80 if quick else 1500)
     for c in corpus:
         if c.get("kind") in ("Q", "D"):
@@ -628,9 +637,11 @@ def run(chk):
     sizes = {u: q_of_bits(o)[0] for u, o in zip(all_units, size_out)}
 
     lines = [c[2] for c in model_cases] + [c[1] for c in oracle_cases] + \
-            ["unit_list([%s], %s %s)" % (", ".join(us), fl(v), vu) for us, v, vu in mixed_cases] + [c[1] for c in dt_cases]
+            ["unit_list([%s], %s %s)" % (", ".join(us), fl(v), vu) for us, v, vu in mixed_cases] + [c[1] for c in dt_cases] + \
+            ["%s(%s %s)" % (fn, fl(v), vu) for fn, us, v, vu in wrapper_cases]
     outs = common.run_harness(binary, "eval", lines)
-    o_dt = outs[len(model_cases) + len(oracle_cases) + len(mixed_cases):]
+    o_wrap = outs[len(lines) - len(wrapper_cases):]
+    o_dt = outs[len(model_cases) + len(oracle_cases) + len(mixed_cases):len(lines) - len(wrapper_cases)]
     o_model = outs[:len(model_cases)]
     o_oracle = outs[len(model_cases):len(model_cases) + len(oracle_cases)]
     o_mixed = outs[len(model_cases) + len(oracle_cases):len(model_cases) + len(oracle_cases) + len(mixed_cases)]
@@ -713,6 +724,11 @@ def run(chk):
             fails.append({"pair": "unit_list", "source": "unit_list([%s], %s %s)" % (", ".join(us), fl(v), vu),
                           "implementation": o, "detail": why})
 
+    for (fn, us, v, vu), o in zip(wrapper_cases, o_wrap):
+        per_pair[fn] += 1
+        why = mixed_check(us, v, vu, o, sizes)
+        if why:
+            fails.append({"pair": fn, "source": "%s(%s %s)" % (fn, fl(v), vu), "implementation": o, "detail": why})
     for (name, src, kind, want, tol), o in zip(dt_cases, o_dt):
         per_pair[name] += 1
         if kind == "Q":
